@@ -353,10 +353,15 @@ def d5_gc_and_copy(ctx):
         f = run[0]
         fa = ctx.fa(f)
         src = {}
-        for fld in ("cc_target_bps", "loss_degraded"):
+        consts_ok = True
+        for fld, dflt in (("cc_target_bps", 0), ("loss_degraded", False)):
             for (bb, si, s) in field_stores(f, CONN, fld):
                 v = fa.val_rvalue(s["rv"], (bb, si))
-                src[fld] = v
+                if v[0] == "const":
+                    # the "no snapshot for this link" arm of an explicit match: the same default as unwrap_or(..)
+                    consts_ok = consts_ok and v[1] == dflt and type(v[1]) is type(dflt)
+                else:
+                    src[fld] = v
         t = src.get("cc_target_bps")
         l = src.get("loss_degraded")
         def reads(v, fld):
@@ -375,7 +380,7 @@ def d5_gc_and_copy(ctx):
         ok = reads(t, "target_bps") and reads(l, "loss_degraded")
         same = ok and [strip_old(x) for x in walk(t) if x[0] == "call" and "HashMap" in x[1] and x[1].endswith("::get")][:1] == \
             [strip_old(x) for x in walk(l) if x[0] == "call" and "HashMap" in x[1] and x[1].endswith("::get")][:1]
-        ctx.chk.ob("D5", "target and latch are copied from the same per-link snapshot entry", bool(ok and same),
+        ctx.chk.ob("D5", "target and latch are copied from the same per-link snapshot entry", bool(ok and same and consts_ok),
                    "target <- %s ; latch <- %s" % (show(t, f.names)[:120] if t else None, show(l, f.names)[:120] if l else None), key="D5:shell-copy-source")
 
 
